@@ -595,6 +595,10 @@ impl Machine {
         self.allocate_stub_choice_point()
             .expect("failed to allocate stub choice point");
 
+        // NOTE: a ball left over from an earlier query that threw must not
+        // be reported again by this query.
+        self.machine_st.ball.reset();
+
         // Write parsed term to heap
         let term_write_result = write_term_to_heap(&term, &mut self.machine_st.heap)
             .expect("couldn't write term to heap");
